@@ -5,6 +5,8 @@ Trace == ndJsonDeserialize(IOEnv.TRACE)
 VARIABLES l, bad, nbad, ntr, derived
 tvars == <<total, nlog, hist, l, bad, nbad, ntr, derived>>
 MaxBad == 40
+\* deviations are kept per class (operation, failed checks, deviation flags): a flood of one class never hides another
+KeepBad(bd, op, fl, dv) == Cardinality({b \in bd : b[3] = op /\ b[4] = fl /\ b[5] = dv}) < 6 /\ Cardinality(bd) < 40 * MaxBad
 ToSet(s) == {s[i] : i \in DOMAIN s}
 Flag(cond, name) == IF cond THEN {} ELSE {name}
 
@@ -39,7 +41,7 @@ TraceNext ==
      /\ total' = r.total /\ nlog' = r.nlog /\ derived' = r.derived /\ hist' = hist
      /\ l' = l + 1 /\ ntr' = IF e.op \in {"reset", "concsnapshot"} THEN ntr + 1 ELSE ntr
      /\ nbad' = IF r.f = {} THEN nbad ELSE nbad + 1
-     /\ bad' = IF r.f = {} \/ Cardinality(bad) >= MaxBad THEN bad ELSE bad \cup {<<e.tid, l, e.op, r.f, {}>>}
+     /\ bad' = IF r.f = {} \/ ~KeepBad(bad, e.op, r.f, {}) THEN bad ELSE bad \cup {<<e.tid, l, e.op, r.f, {}>>}
 TraceSpec == TraceInit /\ [][TraceNext]_tvars
 Report == l <= Len(Trace) \/ PrintT(<<"VERIF_RESULT", l - 1, ntr, nbad, bad>>)
 =============================================================================
